@@ -21,7 +21,8 @@ pub open spec fn smap_get<K, V>(s: Seq<(K, V)>, k: K) -> Option<V> {
     let i = smap_idx(s, k);
     if i >= 0 { Some(s[i].1) } else { None }
 }
-/// keys are pairwise distinct (host maps are keyed; type invariant of the SDK, assumed by `lemma_wf`)
+/// keys are pairwise distinct (true of every host map; the model does not assume it — lemmas that need it
+/// take it as a hypothesis and `smap_set` is proved to preserve it)
 pub open spec fn smap_wf<K, V>(s: Seq<(K, V)>) -> bool {
     forall|i: int, j: int| 0 <= i < s.len() && 0 <= j < s.len() && i != j ==> (#[trigger] s[i]).0 != (#[trigger] s[j]).0
 }
@@ -46,9 +47,6 @@ impl<K, V> Clone for SdkMap<K, V> {
     fn clone(&self) -> (r: Self) ensures r == *self { unimplemented!() }
 }
 impl<K, V> SdkMap<K, V> {
-    /// host maps have pairwise distinct keys and at most u32::MAX entries (type invariant of the SDK, assumed)
-    #[verifier::external_body]
-    pub proof fn lemma_wf(&self) ensures smap_wf(self@), self@.len() <= u32::MAX {}
     #[verifier::external_body]
     pub fn new(e: &Env) -> (r: Self) ensures r@ == Seq::<(K, V)>::empty() { unimplemented!() }
     #[verifier::external_body]
